@@ -282,6 +282,19 @@ theorem C05_tree_fixpoint (t : XmlTree.Tree) (hv : XmlTree.TreeValid { root := t
   rw [h2] at h
   cases h; rfl
 
+/-- P0 (second export).  The export of the reimported tree equals the first export except for what `clearTree` removes: the
+    `depth` of Bridges (and the unexported depth of Groups), which the core recomputes on every load, and page types of size 0,
+    which the importer drops (no loader produces them).  String filtering, info filtering and refused userdata do not show:
+    the exporter applies them itself. -/
+theorem C05_tree_second_export (t : XmlTree.Tree) (hv : XmlTree.TreeValid { root := true } t = true) :
+    ∃ t', XmlTree.importTree (XmlTree.exportTree true t) = .ok t' ∧
+      XmlTree.exportTree true t' = XmlTree.exportTree true (XmlTree.clearTree t) :=
+  ⟨XmlTree.normTree t, XmlTree.importTree_exportTree t hv, XmlTree.exportTree_normTree true t⟩
+
+/-- for an object that is neither a Group nor a Bridge there is nothing to clear -/
+theorem C05_tree_second_export_same_attrs (f : XmlObj.ObjFields) (hG : f.type ≠ Hw.Topo.tGROUP) (hB : f.type ≠ Hw.Topo.tBRIDGE) :
+    XmlTree.clearDerived f = f := XmlTree.clearDerived_id f hG hB
+
 /-- one round trip normalises completely: `normTree` is idempotent and keeps validity -/
 theorem C05_tree_norm_idem (t : XmlTree.Tree) : XmlTree.normTree (XmlTree.normTree t) = XmlTree.normTree t := XmlTree.normTree_idem t
 theorem C05_tree_norm_valid (c : XmlObj.Ctx) (t : XmlTree.Tree) (hv : XmlTree.TreeValid c t = true) :
@@ -352,6 +365,7 @@ example : (match XmlTree.importTree
     (.mk XmlTree.tagObject (XmlObj.exportAttrs true exTree.d.f) none [XmlTree.exportTree false (exPU 0 2), XmlTree.infoElem (str "a", str "b")])
     with | .reject => true | _ => false) = true := by decide
 example : XmlTree.udValid { name := none, b64 := true, data := [0, 255] } = true := by decide
+example : (2 : Nat) ≠ Hw.Topo.tGROUP ∧ (2 : Nat) ≠ Hw.Topo.tBRIDGE := by decide
 
 -- "a<b&c" -> a&lt;b&amp;c  and back, scanning stops on the quote
 example : escape [97, 60, 98, 38, 99] = [97, 38, 108, 116, 59, 98, 38, 97, 109, 112, 59, 99] := by decide
